@@ -17,6 +17,7 @@ import (
 	"reflect"
 	"regexp"
 	"runtime"
+	"runtime/debug"
 	"sort"
 	"strings"
 	"time"
@@ -583,6 +584,12 @@ func c07Replay(c *h.Ctx) error {
 	}
 	perEntry := map[string]int{}
 	applyChecked := 0
+	// A runaway recursion ends in "fatal error: stack overflow", which recover() cannot catch: the process dies. The
+	// orchestrator then bisects with to=<k> (execute only the first k cases) and reports the culprit with describe=<k>.
+	debug.SetMaxStack(64 << 20)
+	limit := c.OptInt("to", -1)
+	describe := c.OptInt("describe", -1)
+	lineNo := -1
 	var ms runtime.MemStats
 	hung := 0
 	err = c.Lines(func(line []byte) error {
@@ -593,6 +600,10 @@ func c07Replay(c *h.Ctx) error {
 		if hc.I < 1 || hc.I > len(bs) {
 			return fmt.Errorf("base index %d out of range", hc.I)
 		}
+		lineNo++
+		if limit >= 0 && lineNo >= limit {
+			return nil
+		}
 		b := bs[hc.I-1]
 		e, ok := byName[b.E]
 		if !ok {
@@ -601,6 +612,13 @@ func c07Replay(c *h.Ctx) error {
 		in := []byte(b.B)
 		for _, m := range hc.M {
 			in = applyMut(in, m)
+		}
+		if describe >= 0 {
+			if lineNo == describe {
+				c.Fail(b.E, c.Opt("aspect", "process-killed"), fmt.Sprintf("the process died while decoding this %d-byte input (base %d, corruptions %s): %s", len(in), hc.I, mutString(hc.M), c.Opt("why", "")),
+					map[string]interface{}{"input_hex": h.Hex(in), "entry": b.E})
+			}
+			return nil
 		}
 		if hc.C {
 			applyChecked++
